@@ -169,6 +169,7 @@ func (g *Gen) fmtCallX(depth int, allowW bool, allowErr bool, litUnsafe bool) []
 	n := 1 + g.r.intn(4)
 	var out []FP
 	usedW := false
+	tokStart := snapshotTokens(g)
 	for i := 0; i < n; i++ {
 		switch k := g.r.intn(10); {
 		case k < 3:
@@ -198,6 +199,26 @@ func (g *Gen) fmtCallX(depth int, allowW bool, allowErr bool, litUnsafe bool) []
 		}
 		if i < n-1 && g.r.chance(60) {
 			out = append(out, FP{Kind: "lit", S: []string{" ", ": ", ", ", "=", " - "}[g.r.intn(5)]})
+		}
+	}
+	if g.r.chance(8) {
+		// a call with more arguments than verbs (also: an empty format with arguments)
+		if g.r.chance(40) && !hasErrPiece(out) {
+			out = nil
+			restoreTokens(g, tokStart) // the dropped pieces' tokens are not in the error
+			if !g.r.chance(50) {
+				out = append(out, FP{Kind: "lit", S: ""})
+			}
+		}
+		for k := 0; k < 1+g.r.intn(2); k++ {
+			switch g.r.intn(3) {
+			case 0:
+				out = append(out, FP{Kind: "xstr", S: g.sU()})
+			case 1:
+				out = append(out, FP{Kind: "xsafestr", S: g.sS()})
+			default:
+				out = append(out, FP{Kind: "xint", I: int64(g.r.intn(100))})
+			}
 		}
 	}
 	return out
@@ -401,7 +422,7 @@ func (g *Gen) Wrapper(kid *R, depth int) *R {
 		}
 		return &R{Op: "fmterrorf", Fmt: f}
 	default:
-		kinds := []string{"unwrap", "cause", "both", "full", "empty", "safedet"}
+		kinds := []string{"unwrap", "cause", "both", "full", "empty", "safedet", "as"}
 		k := g.r.pick(kinds)
 		r := &R{Op: "uwrap", S: []string{k, g.sU()}, Kids: k1, Strs: []string{}}
 		if k == "safedet" {
@@ -444,6 +465,15 @@ func (g *Gen) Multi(depth int) *R {
 		}
 		return &R{Op: "fmterrorf", Fmt: f}
 	}
+}
+
+func hasErrPiece(f []FP) bool {
+	for _, p := range f {
+		if p.Kind == "err" {
+			return true
+		}
+	}
+	return false
 }
 
 // Size counts the constructor applications of a recipe.
@@ -656,6 +686,7 @@ func asByType(e error, name string) (error, bool) {
 	return nil, true
 }
 
+// asValTarget: errors.As into a *ut.Val target (what ut.WAs's As method fills)
 var asTypeTargets = []string{
 	"verifharness/ut/*ut.Plain", "verifharness/ut/ut.Val", "verifharness/ut/*ut.IsTag", "syscall/syscall.Errno",
 	"io/fs/*fs.PathError", "os/*os.LinkError", "os/*os.SyscallError",
